@@ -50,6 +50,9 @@ fn rules() -> Vec<(String, Expr)> {
         ("lazy".into(), Expr::iif(Expr::lt(Expr::reff("b"), Expr::value(1)), call("s2", Expr::reff("a")), Expr::index(Expr::reff("facts"), Index::from("missing")))),
         ("map order".into(), Expr::Map(m)),
         ("type error".into(), Expr::add(Expr::reff("a"), Expr::value("x".to_string()))),
+        // rules made of literals only (anything computed once per ruleset and published to other threads would be these)
+        ("constant table".into(), Expr::Vec((0..300).map(|i| Expr::Vec(vec![Expr::value(i as i128), Expr::value(format!("row {i}"))])).collect())),
+        ("constant".into(), Expr::add(Expr::value(40), Expr::value(2))),
     ]
 }
 
@@ -250,10 +253,12 @@ fn main() {
     log_a.take();
     log_b.take();
 
-    // concurrent: a shared run queue; every poll of a task may happen on a different thread
+    // concurrent: a shared run queue; every poll of a task may happen on a different thread. In churn mode every ruleset gets three
+    // tasks next to each other in the queue, so that its first evaluations start on different threads at nearly the same moment
+    let copies: u64 = if CHURN.load(Ordering::Relaxed) { 3 } else { 1 };
     let queue: Arc<Mutex<VecDeque<(u64, Task, Option<std::thread::ThreadId>)>>> = Arc::new(Mutex::new(VecDeque::new()));
-    for i in 0..total {
-        queue.lock().unwrap().push_back((i, make_task(i, true), None));
+    for id in 0..total * copies {
+        queue.lock().unwrap().push_back((id, make_task(id / copies, true), None));
     }
     let results: Arc<Mutex<BTreeMap<u64, Rendered>>> = Arc::new(Mutex::new(BTreeMap::new()));
     let migrations = Arc::new(AtomicU64::new(0));
@@ -314,10 +319,11 @@ fn main() {
     let results = results.lock().unwrap();
     let mut mismatches = vec![];
     let mut kinds: BTreeMap<String, u64> = BTreeMap::new();
-    for i in 0..total {
+    for id in 0..total * copies {
+        let i = id / copies;
         *kinds.entry(format!("{:?}", what(i))).or_default() += 1;
         let (want_r, want_l) = &expected[i as usize];
-        match results.get(&i) {
+        match results.get(&id) {
             None => mismatches.push(format!("evaluation {i} ({:?}): no result", what(i))),
             Some(r) => {
                 if r != want_r {
@@ -325,13 +331,13 @@ fn main() {
                 }
             }
         }
-        let l = by_eval.remove(&(i + 1)).unwrap_or_default();
+        let l = by_eval.remove(&(id + 1)).unwrap_or_default();
         if &l != want_l {
             mismatches.push(format!("evaluation {i} ({:?}): invocation log differs from the sequential run: {l:?} vs {want_l:?}", what(i)));
         }
     }
     let out = serde_json::json!({
-        "threads": threads, "evaluations": total, "polls": polls.load(Ordering::Relaxed), "migrations": migrations.load(Ordering::Relaxed), "tasks_migrated": migrated_tasks.lock().unwrap().len(),
+        "threads": threads, "evaluations": total * copies, "polls": polls.load(Ordering::Relaxed), "migrations": migrations.load(Ordering::Relaxed), "tasks_migrated": migrated_tasks.lock().unwrap().len(),
         "mismatches": mismatches.len(), "first_mismatches": mismatches.iter().take(3).collect::<Vec<_>>(),
         "sample_outcome": expected.get(1).map(|e| format!("{:?}", e.0)), "evaluations_by_kind": kinds,
     });
